@@ -15,7 +15,7 @@ theorem typedSpec_nil (k : FieldKind) : typedSpec k [] = some { kind := k } := b
   | datetime => simp [typedSpec, timeColumn, cellsMapE, Except.toOption]
   | date => simp [typedSpec, timeColumn, cellsMapE, Except.toOption]
   | fixed n => simp [typedSpec]
-  | categorical cats => simp [typedSpec]
+  | categorical cats => simp [typedSpec, catColumn]
 
 /-- the kind of file column `c` under a schema (columns missing from the schema are indexed strings) -/
 def kindAt (names : List String) (schema : List (String × FieldKind)) (c : Nat) : FieldKind :=
